@@ -22,6 +22,7 @@ func fatal(msg string) { simrt.Fatal("fatal error: " + msg) }
 type Mutex struct {
 	locked bool
 	owner  int
+	since  int
 }
 
 func (m *Mutex) Lock() {
@@ -34,10 +35,15 @@ func (m *Mutex) Lock() {
 	}
 	simrt.Yield()
 	if m.locked {
-		simrt.WaitUntil("mutex", func() bool { return !m.locked })
+		if m.owner == simrt.CurID() && simrt.CurID() >= 0 {
+			// sync.Mutex is not re-entrant: this goroutine would block for ever
+			simrt.Fatal(fmt.Sprintf("deadlock: sync.Mutex locked again by the goroutine that holds it (g%d, held since step %d)", m.owner, m.since))
+		}
+		simrt.WaitUntil(fmt.Sprintf("mutex (held by g%d since step %d)", m.owner, m.since), func() bool { return !m.locked })
 	}
 	m.locked = true
 	m.owner = simrt.CurID()
+	m.since = simrt.Steps()
 }
 
 func (m *Mutex) TryLock() bool {
